@@ -106,6 +106,81 @@ func collect2(fset *token.FileSet, f *ast.File) []site {
 	return sites
 }
 
+// third family (-family 3): library calls replaced by their siblings, boolean literals flipped, slice bounds and indices
+// shifted by one, `else` branches removed
+var siblings = map[string][]string{
+	"strings.Trim": {"strings.TrimLeft", "strings.TrimRight"}, "strings.TrimLeft": {"strings.Trim"}, "strings.TrimRight": {"strings.Trim"},
+	"strings.Index": {"strings.LastIndex"}, "strings.LastIndex": {"strings.Index"}, "strings.IndexAny": {"strings.LastIndexAny"},
+	"strings.LastIndexAny": {"strings.IndexAny"}, "strings.HasPrefix": {"strings.HasSuffix"}, "strings.HasSuffix": {"strings.HasPrefix"},
+	"strings.ToLower": {"strings.ToUpper"}, "sort.Strings": {"sort.Sort(sort.Reverse(sort.StringSlice"},
+	"sort.SliceStable": {"sort.Slice"}, "sort.Stable": {"sort.Sort"},
+}
+var methodSiblings = map[string][]string{
+	"Before": {"After"}, "After": {"Before"}, "Equal": {"Before"}, "Local": {"UTC"}, "UTC": {"Local"},
+}
+
+func collect3(fset *token.FileSet, f *ast.File) []site {
+	var sites []site
+	pos := func(n ast.Node) string { return fset.Position(n.Pos()).String() }
+	ast.Inspect(f, func(n ast.Node) bool {
+		switch x := n.(type) {
+		case *ast.CallExpr:
+			if sel, ok := x.Fun.(*ast.SelectorExpr); ok {
+				if id, ok := sel.X.(*ast.Ident); ok {
+					full := id.Name + "." + sel.Sel.Name
+					for _, to := range siblings[full] {
+						to := to
+						if full == "sort.Strings" {
+							sites = append(sites, site{fmt.Sprintf("%s: sort.Strings -> descending", pos(x)), func() {
+								x.Fun = &ast.SelectorExpr{X: ast.NewIdent("sort"), Sel: ast.NewIdent("Sort")}
+								x.Args = []ast.Expr{&ast.CallExpr{Fun: &ast.SelectorExpr{X: ast.NewIdent("sort"), Sel: ast.NewIdent("Reverse")},
+									Args: []ast.Expr{&ast.CallExpr{Fun: &ast.SelectorExpr{X: ast.NewIdent("sort"), Sel: ast.NewIdent("StringSlice")}, Args: x.Args}}}}
+							}})
+							continue
+						}
+						name := to[len(id.Name)+1:]
+						sites = append(sites, site{fmt.Sprintf("%s: %s -> %s", pos(x), full, to), func() { sel.Sel = ast.NewIdent(name) }})
+					}
+					if full == "strings.TrimSpace" && len(x.Args) == 1 {
+						sites = append(sites, site{fmt.Sprintf("%s: strings.TrimSpace removed", pos(x)), func() { x.Fun = &ast.ParenExpr{X: ast.NewIdent("string")} }})
+					}
+				}
+				for _, to := range methodSiblings[sel.Sel.Name] {
+					to := to
+					if _, isPkg := sel.X.(*ast.Ident); isPkg && (sel.Sel.Name == "Local" || sel.Sel.Name == "UTC") {
+						// time.Local / time.UTC are variables, not calls; a call `t.Local()` has a receiver expression
+					}
+					from := sel.Sel.Name
+					sites = append(sites, site{fmt.Sprintf("%s: .%s() -> .%s()", pos(x), from, to), func() { sel.Sel = ast.NewIdent(to) }})
+				}
+			}
+		case *ast.Ident:
+			if x.Name == "true" || x.Name == "false" {
+				to := "false"
+				if x.Name == "false" {
+					to = "true"
+				}
+				from := x.Name
+				sites = append(sites, site{fmt.Sprintf("%s: %s -> %s", pos(x), from, to), func() { x.Name = to }})
+			}
+		case *ast.SliceExpr:
+			if x.Low != nil {
+				sites = append(sites, site{fmt.Sprintf("%s: slice low +1", pos(x)), func() { x.Low = &ast.BinaryExpr{X: x.Low, Op: token.ADD, Y: &ast.BasicLit{Kind: token.INT, Value: "1"}} }})
+			}
+			if x.High != nil {
+				sites = append(sites, site{fmt.Sprintf("%s: slice high -1", pos(x)), func() { x.High = &ast.BinaryExpr{X: x.High, Op: token.SUB, Y: &ast.BasicLit{Kind: token.INT, Value: "1"}} }})
+				sites = append(sites, site{fmt.Sprintf("%s: slice high +1", pos(x)), func() { x.High = &ast.BinaryExpr{X: x.High, Op: token.ADD, Y: &ast.BasicLit{Kind: token.INT, Value: "1"}} }})
+			}
+		case *ast.IfStmt:
+			if x.Else != nil {
+				sites = append(sites, site{fmt.Sprintf("%s: drop else branch", pos(x)), func() { x.Else = nil }})
+			}
+		}
+		return true
+	})
+	return sites
+}
+
 func collect(fset *token.FileSet, f *ast.File) []site {
 	var sites []site
 	pos := func(n ast.Node) string { return fset.Position(n.Pos()).String() }
@@ -263,6 +338,9 @@ func main() {
 	sites := collect(fset, f)
 	if os.Getenv("MUTATE_FAMILY") == "2" {
 		sites = collect2(fset, f)
+	}
+	if os.Getenv("MUTATE_FAMILY") == "3" {
+		sites = collect3(fset, f)
 	}
 	if os.Args[1] == "-list" {
 		fmt.Println(len(sites))
